@@ -83,4 +83,7 @@ def run(ctx):
     rep.floor('R11.c', 2)
     rep.floor('R11.d', 4)
     rep.floor('R11.w', 2)
+    if ctx['tier'] == 'thorough':
+        from vpcheck import run_witness
+        run_witness(rep, 'W11')
     return rep
